@@ -32,7 +32,33 @@ fn consistent(g: &GraphEngine, nodes: &[u64]) -> Vec<String> {
     bad
 }
 
+/// S5: max(ids) nodes and edges created through the API, the engine re-created over the same store, one more node and edge.
+fn reopen(req: &Value) -> Value {
+    let n = req["ids"].as_array().into_iter().flatten().filter_map(Value::as_u64).max().unwrap_or(1).min(300);
+    let g = GraphEngine::new();
+    let nodes: Vec<u64> = (0..n).map(|_| g.create_node("N", HashMap::new()).unwrap()).collect();
+    let edges: Vec<u64> = (0..n as usize).map(|i| g.create_edge(nodes[i], nodes[(i + 1) % n as usize], "T", HashMap::new(), true).unwrap()).collect();
+    let before: Vec<(u64, u64, u64)> = g.all_edges().iter().map(|e| (e.id, e.from, e.to)).collect();
+    let store = g.store().clone();
+    drop(g);
+    let g2 = if req["constructor"].as_str() == Some("with_store_and_config") { GraphEngine::with_store_and_config(store, graph_engine::GraphEngineConfig::default()) } else { GraphEngine::with_store(store) };
+    let new_node = g2.create_node("N", HashMap::new()).unwrap();
+    let new_edge = g2.create_edge(nodes[0], nodes[0], "NEW", HashMap::new(), true).unwrap();
+    let mut bad = vec![];
+    if nodes.contains(&new_node) { bad.push(format!("new node reused id {new_node}")); }
+    if edges.contains(&new_edge) { bad.push(format!("new edge reused id {new_edge}")); }
+    let after: Vec<(u64, u64, u64)> = g2.all_edges().iter().map(|e| (e.id, e.from, e.to)).collect();
+    if before.iter().any(|e| !after.contains(e)) { bad.push("an edge that existed before the reopen changed or vanished".into()); }
+    let mut all_nodes = nodes.clone();
+    all_nodes.push(new_node);
+    bad.extend(consistent(&g2, &all_nodes));
+    json!({"new_node": new_node, "new_edge": new_edge, "problems": bad, "violates": !bad.is_empty()})
+}
+
 pub fn handle(op: &str, req: &Value) -> Option<Value> {
+    if op == "graph_reopen" {
+        return Some(reopen(req));
+    }
     if op != "graph_step" {
         return None;
     }
